@@ -8,6 +8,18 @@ HERE = os.path.dirname(os.path.dirname(os.path.abspath(__file__)))
 PY = "/venv/bin/python"
 
 CHECKS = {
+    "C01": dict(
+        technique="property-based testing: exhaustive chain-shape enumeration + Hypothesis program ASTs vs reference preprocessor model, differential against gcc -E",
+        text="Generated-input search over programs x -D configurations: every conditional-chain shape up to a size bound under all 2^k assignments, plus Hypothesis programs (nesting 4, #define/#undef, lexical variety). Each counted line's platform set is compared with a reference model on the AST; gcc -E marker survival validates the model and every reported disagreement. Bounded exploration, no proof.",
+        note="Trusts gcc 12 as the conforming preprocessor and the ~300-line AST model/renderer in vlib/pp_ast.py (cross-checked against gcc each run).",
+        ref="2 C01",
+    ),
+    "C02": dict(
+        technique="property-based testing: exhaustive small-expression enumeration + Hypothesis expression trees vs exact-integer ISO C model, differential against gcc -E",
+        text="Generated-input search over #if expressions: all operator pairs/compositions, all <=2-operator expressions over boundary literals (sampled in quick, complete in thorough) and random trees, observed through value-revealing wrappers (E, (E)==V, (E)!=V, signedness probe); the model is confirmed by gcc on a sample and on every unlisted disagreement; unevaluated-#elif programs with garbage expressions. Bounded exploration.",
+        note="Trusts gcc 12 for implementation-defined behaviour and the model in vlib/model_expr.py (gcc-validated each run); UB and gcc-diagnosed expressions are excluded.",
+        ref="2 C02",
+    ),
     "C07": dict(
         technique="property-based testing: exhaustive table enumeration + Hypothesis tables vs exact-rational reference model and metamorphic relations",
         text="Generated-input search: every table over 3 platforms with counts from a small set (complete enumeration) and Hypothesis tables over <=8 platforms are compared with exact rational formulas, plus symmetry/renaming/order/scaling relations and the printed metric lines. Finds formula deviations on any explored table; says nothing beyond the explored sizes.",
